@@ -130,6 +130,33 @@ _s("minmax", r"""
                     clamp(seconds(500), minutes(1), minutes(2)).in(seconds), max(seconds(0.5), ZERO).in(seconds));
 """)
 
+_s("minmax_float_mixed", r"""
+        // min / max of two different Quantity types whose common rep is a floating-point type:
+        // zeros of opposite sign, NaN in either position, and use in constant expressions
+        const auto z1 = max(seconds(-0.0f), milli(seconds)(0.0f));
+        const auto z2 = min(milli(seconds)(0.0), seconds(-0.0));
+        const auto z3 = max(seconds(-0.0), milli(seconds)(0.0f));
+        const auto z4 = min(seconds(0.0L), milli(seconds)(-0.0L));
+        const auto z5 = max(milli(seconds)(0.0f), seconds(-0.0f));
+        const double qn = std::numeric_limits<double>::quiet_NaN();
+        const auto n1 = max(seconds(qn), milli(seconds)(1.0));
+        const auto n2 = max(milli(seconds)(1.0), seconds(qn));
+        const auto n3 = min(seconds(qn), milli(seconds)(1.0));
+        const auto n4 = min(milli(seconds)(1.0), seconds(qn));
+        std::printf("minmax_float_mixed %d%d%d%d%d %d%d%d%d %.17g\n", int(std::signbit(z1.in(milli(seconds)))), int(std::signbit(z2.in(milli(seconds)))),
+                    int(std::signbit(z3.in(milli(seconds)))), int(std::signbit(z4.in(milli(seconds)))), int(std::signbit(z5.in(milli(seconds)))),
+                    int(std::isnan(n1.in(milli(seconds)))), int(std::isnan(n2.in(milli(seconds)))), int(std::isnan(n3.in(milli(seconds)))), int(std::isnan(n4.in(milli(seconds)))),
+                    (seconds(1.0) / max(seconds(-0.0), milli(seconds)(0.0))).in(seconds / milli(seconds)));
+""")
+
+_s("minmax_mixed_constexpr", r"""
+        constexpr auto c1 = max(seconds(1.0), milli(seconds)(2.0));
+        constexpr auto c2 = min(seconds(1.0f), milli(seconds)(2.0));
+        constexpr auto c3 = clamp(seconds(5.0), milli(seconds)(1.0), minutes(1.0f));
+        constexpr auto c4 = max(seconds(1), milli(seconds)(2));
+        std::printf("minmax_mixed_constexpr %.17g %.17g %.17g %d\n", c1.in(milli(seconds)), c2.in(milli(seconds)), c3.in(milli(seconds)), int(c4.in(milli(seconds))));
+""")
+
 _s("labels", r"""
         std::printf("labels [%s] [%s] [%s] [%s] [%s] [%s]\n", unit_label(seconds * minutes), unit_label(hours / seconds),
                     unit_label(milli(seconds)), unit_label(Seconds{} * mag<3>() / mag<7>()), unit_label(pow<-2>(kilo(hours))),
